@@ -73,7 +73,7 @@ def line_of_call(body, pred):
 
 def r2_order(run, F):
     st = F.body("<alpha::common::Statement as alpha::scoper::variable_references::Analyzable>::analyze")
-    m = [x for x in hirq.matches(st["hir"]) if len(x["arms"]) >= 8][0]
+    m = [x for x in hirq.matches(st["hir"]) if hirq.n_alts(x) >= 8][0]
     arm = hirq.arm_for(m, "Statement::Declaration")
     run.require(arm, "Statement::Declaration arm not found")
     an = line_of_call(arm[0]["body"], lambda c: c.get("k") == "MethodCall" and c.get("name") == "analyze")
@@ -81,7 +81,7 @@ def r2_order(run, F):
     run.ob("R2-DECLARE-AFTER-INITIALISER", "Statement::Declaration", len(an) == 2 and len(dv) == 1 and max(an) < dv[0], F.where(st, arm[0]),
            "value and value_type are analysed before the variable is declared (no reflexive definitions such as `var x = x;`)")
     d = F.body("<alpha::common::Declaration as alpha::scoper::variable_references::Analyzable>::analyze")
-    dm = [x for x in hirq.matches(d["hir"]) if len(x["arms"]) >= 5][0]
+    dm = [x for x in hirq.matches(d["hir"]) if hirq.n_alts(x) >= 5][0]
     farm = hirq.arm_for(dm, "Declaration::Function")
     run.require(farm, "Declaration::Function arm not found")
     # parameters analysed (declared) before the body
@@ -118,7 +118,7 @@ def r3_passes(run, F):
 
 def r4_pruning(run, F):
     st = F.body("<alpha::common::Statement as alpha::scoper::variable_references::Analyzable>::analyze")
-    m = [x for x in hirq.matches(st["hir"]) if len(x["arms"]) >= 8][0]
+    m = [x for x in hirq.matches(st["hir"]) if hirq.n_alts(x) >= 8][0]
     for variant, fn in (("Goto", "prepare_to_prune_at_goto"), ("Label", "prune_at_label")):
         arm = hirq.arm_for(m, "Statement::" + variant)
         cs = [hirq.callee(c) for c in hirq.calls(arm[0]["body"])] if arm else []
@@ -213,7 +213,7 @@ def r5_lookup(run, F):
 
 def r6_codes(run, F):
     code = F.body("alpha::error::Error::code")
-    cm = [x for x in hirq.matches(code["hir"]) if len(x["arms"]) > 40][0]
+    cm = [x for x in hirq.matches(code["hir"]) if hirq.n_alts(x) > 40][0]
     rows = {hirq.pat_key(a["pat"]): hirq.unwrap_trivial(a["body"]).get("v") for a in cm["arms"]}
     for v, c in (("Error::UndefinedVariable", 402), ("Error::DuplicateDeclarationVariable", 422), ("Error::DuplicateDeclarationParameter", 424),
                  ("Error::DuplicateDeclarationMember", 426), ("Error::VariableDeclarationMayBeSkipped", 482), ("Error::NotACompileTimeConstant", 433)):
